@@ -89,3 +89,23 @@ Theorem C12_domain_from_wf : forall dl d s p acc egr,
   shift_dom d s p acc egr dl = true.
 Proof. exact wf_shift_dom. Qed.
 Print Assumptions C12_domain_from_wf.
+
+(* the whole forward scan (entry slot of the hour index + every step) as the source writes it now *)
+Theorem C12_forward_scan_is_code : forall d p k, fwd_scan_code d p k = fwd_scan d p k false.
+Proof. exact fwd_scan_tie. Qed.
+Print Assumptions C12_forward_scan_is_code.
+
+(* the whole reverse scan (entry slot of the hour index + every step) as the source writes it now *)
+Theorem C12_reverse_scan_is_code : forall d p k, rev_scan_code d p k = rev_scan d p k false.
+Proof. exact rev_scan_tie. Qed.
+Print Assumptions C12_reverse_scan_is_code.
+
+(* the departure-order comparator of transit_data.cpp's stable_sort as the source writes it now *)
+Theorem C12_forward_sort_is_code : forall a b, cmp_args G.gen_fwd_lt a b = fwd_lt a b.
+Proof. exact fwd_lt_tie. Qed.
+Print Assumptions C12_forward_sort_is_code.
+
+(* the arrival-order comparator (with its reversed trip/sequence tie-break) as the source writes it now *)
+Theorem C12_reverse_sort_is_code : forall a b, cmp_args G.gen_rev_lt a b = rev_lt a b.
+Proof. exact rev_lt_tie. Qed.
+Print Assumptions C12_reverse_sort_is_code.
